@@ -7,11 +7,13 @@ CONSTANTS
   MaxBg = 0
   MaxLosses = 0
   MaxLogins = 1
+  Env = {}
   MaxConnFail = 0
   FixAutoJoin = TRUE
   FixDistStopped = TRUE
   FixWatchdogStopped = TRUE
   FixTimersStopped = TRUE
+  FixStaleInit = TRUE
   FixSelfAwait = TRUE
   FixQueueOnce = TRUE
 INVARIANT TypeOK
